@@ -5,6 +5,8 @@
 // nothing may throw, the number of dereferences must stay linear in the input length; ASan/UBSan and the cvector bounds monitor are on.
 #include "common/access.hpp"
 #include "common/buffers.hpp"
+#include "common/ref_regex.hpp"
+#include "common/bugmodel_merge.hpp"
 #include <sstream>
 #include <unordered_set>
 #include <cstdlib>
@@ -115,7 +117,7 @@ static std::string& target() { static std::string t; return t; }
 
 [[noreturn]] static void violation(const std::string& what, const std::string& input)
 {
-    fprintf(stderr, "\nC06-VIOLATION: %s\ninput_hex=%s\n", what.c_str(), vj::hex(input).c_str());
+    fprintf(stderr, "\nFUZZ-VIOLATION: %s\ninput_hex=%s\n", what.c_str(), vj::hex(input).c_str());
     fstats().flush();
     __builtin_trap();
 }
@@ -169,8 +171,31 @@ static void differential(const Parser& p, const std::string& in, unsigned optbit
     else if (nonspace == 0) st.labels["whitespace-only-or-empty"]++;
 }
 
+// reference automata for the compiled patterns of the `match` target (built once at start-up); a pattern whose pinned construction is
+// known to differ from the reference (finding F5) is compared with the model of that construction instead
+struct MatchRef { rx::Dfa dfa; bool uses_model = false; };
+static const char* const match_patterns[14] = {P::m0, P::m1, P::m2, P::m3, P::m4, P::m5, P::m6, P::m7, P::m8, P::m9, P::m10, P::m11, P::m12, P::m13};
+static std::vector<MatchRef>& match_refs()
+{
+    static std::vector<MatchRef> v = []
+    {
+        std::vector<MatchRef> r;
+        for (const char* pat : match_patterns)
+        {
+            MatchRef m; rx::Parsed p = rx::parse_pattern(pat);
+            if (!p.ok || !rx::ast_to_dfa(p.ast, m.dfa)) { fprintf(stderr, "reference cannot parse %s\n", pat); abort(); }
+            bm::Builder b(4096); bm::Slice whole = b.build(p.ast, p.ast.root); b.mark_end_states(whole, 0);
+            rx::Dfa md; b.to_dfa(md); std::string w;
+            if (!rx::equivalent(m.dfa, md, w)) { m.dfa = md; m.uses_model = true; }
+            r.push_back(m);
+        }
+        return r;
+    }();
+    return v;
+}
+
 template<class E>
-static void match_one(const E& e, const std::string& in, bool verbose)
+static void match_one(const E& e, const std::string& in, bool verbose, size_t which)
 {
     std::unique_ptr<char[]> exact(new char[in.size() ? in.size() : 1]); std::memcpy(exact.get(), in.data(), in.size());
     std::ostringstream o1, o2, o3;
@@ -185,6 +210,12 @@ static void match_one(const E& e, const std::string& in, bool verbose)
     }
     catch (const std::exception& ex) { violation(std::string("regex matcher threw / stepped outside the buffer: ") + ex.what(), in); }
     if (a != b || a != c || o1.str() != o2.str() || o1.str() != o3.str()) violation("regex matcher result or output depends on the buffer kind", in);
+    {
+        const MatchRef& mr = match_refs()[which];
+        bool want = rx::dfa_run(mr.dfa, in) == 0;
+        if (a != want) violation(std::string("regex::expr<\"") + match_patterns[which] + "\">::match " + (a ? "accepts a string outside" : "rejects a string of") + " the pattern's language" + (mr.uses_model ? " (relative to the model of the pinned construction)" : ""), in);
+        if (mr.uses_model) fstats().labels["pattern-compared-with-F5-model"]++;
+    }
     FStats& st = fstats();
     if (in.size() >= 2 && st.nontrivial.size() < 3000000 && st.nontrivial.insert(eng::hstr(in)).second) { st.labels[a ? "match" : "no-match"]++; if (st.samples.size() < 4 && in.size() < 100) st.samples.push_back(in); }
 }
@@ -212,10 +243,10 @@ extern "C" int LLVMFuzzerTestOneInput(const uint8_t* data, size_t size)
     {
         switch (sel % 14)
         {
-        case 0: match_one(P::r0, in, (sel & 128) != 0); break; case 1: match_one(P::r1, in, (sel & 128) != 0); break; case 2: match_one(P::r2, in, (sel & 128) != 0); break; case 3: match_one(P::r3, in, (sel & 128) != 0); break;
-        case 4: match_one(P::r4, in, (sel & 128) != 0); break; case 5: match_one(P::r5, in, (sel & 128) != 0); break; case 6: match_one(P::r6, in, (sel & 128) != 0); break; case 7: match_one(P::r7, in, (sel & 128) != 0); break;
-        case 8: match_one(P::r8, in, (sel & 128) != 0); break; case 9: match_one(P::r9, in, (sel & 128) != 0); break; case 10: match_one(P::r10, in, (sel & 128) != 0); break; case 11: match_one(P::r11, in, (sel & 128) != 0); break;
-        case 12: match_one(P::r12, in, (sel & 128) != 0); break; default: match_one(P::r13, in, (sel & 128) != 0); break;
+        case 0: match_one(P::r0, in, (sel & 128) != 0, 0); break; case 1: match_one(P::r1, in, (sel & 128) != 0, 1); break; case 2: match_one(P::r2, in, (sel & 128) != 0, 2); break; case 3: match_one(P::r3, in, (sel & 128) != 0, 3); break;
+        case 4: match_one(P::r4, in, (sel & 128) != 0, 4); break; case 5: match_one(P::r5, in, (sel & 128) != 0, 5); break; case 6: match_one(P::r6, in, (sel & 128) != 0, 6); break; case 7: match_one(P::r7, in, (sel & 128) != 0, 7); break;
+        case 8: match_one(P::r8, in, (sel & 128) != 0, 8); break; case 9: match_one(P::r9, in, (sel & 128) != 0, 9); break; case 10: match_one(P::r10, in, (sel & 128) != 0, 10); break; case 11: match_one(P::r11, in, (sel & 128) != 0, 11); break;
+        case 12: match_one(P::r12, in, (sel & 128) != 0, 12); break; default: match_one(P::r13, in, (sel & 128) != 0, 13); break;
         }
     }
     else if (t == "pattern")
